@@ -17,7 +17,13 @@ type LoadError struct {
 	Kind    ErrorKind
 	Path    string
 	Message string
-	Range   ast.Range
+	// Range is the include directive the error is about, in File.
+	Range ast.Range
+	// File is the file that contains that directive; Via is the include
+	// directive of the journal being resolved through which File was reached
+	// (equal to Range when File is that journal itself).
+	File string
+	Via  ast.Range
 }
 
 func (e LoadError) Error() string {
